@@ -402,6 +402,7 @@ func famRestartOverlap(cloud bool, bounds map[string]int) []*Scenario {
 					w.CreatePod(p1)
 					_, _ = w.Filter(p0.Key())
 					old := w.Plugin
+					w.TwoInstances = true
 					return []Thread{
 						{"old-instance-bind", func() { _ = w.BindWith(old, "ns", p0.Name, string(pod0.UID), "n1") }},
 						{"new-instance", func() {
@@ -412,7 +413,7 @@ func famRestartOverlap(cloud bool, bounds map[string]int) []*Scenario {
 						}},
 					}
 				},
-				Final: func(w *world.World) { _ = w.Restart(); quiesce(w) },
+				Final: func(w *world.World) { _ = w.Restart(); w.TwoInstances = false; quiesce(w) },
 			})
 		}
 	}
